@@ -12,7 +12,7 @@ import RV.C18.Model
   * `add`      : presence test through `self.store.triples(triple, context)`; early return;
                  `try: reverseOps.remove((…,"add")) except ValueError: reverseOps.append((…,"remove"))`;
                  `self.store.add`.                                                (`addLog`, `XW.add`)
-  * `remove`   : `if None in [s, p, o, context]` → `if ctxId:` loop over `context.triples(pattern)`
+  * `remove`   : `if None in [s, p, o, context]` → `if ctxId:` loop over `self.store.triples(pattern, context)`
                  `else:` loop over `ConjunctiveGraph(self.store).quads(pattern)` (one reverse op per
                  quad the store yields: `for (s,p,o), cg in store.triples(…): for ctx in cg`);
                  fully bound → presence test through `self.triples`, early return, ONE cancel-or-append;
@@ -88,7 +88,8 @@ def memTriples (cur : List Quad) (p : Pat) : List (Triple × List Nat) :=
 def cgQuads (cur : List Quad) (p : Pat) : List Quad :=
   (memTriples cur p.anyGraph).flatMap (fun tc => tc.2.map (mkQuad tc.1))
 
-/-- `Graph(store, g).triples(pattern)`, each triple paired with `g` -/
+/-- the wildcard branch for a named context (after fix C18-F3):
+    `for (s, p, o), _cg in self.store.triples(pattern, context)`, each triple paired with `ctxId = g` -/
 def graphTriples (cur : List Quad) (p : Pat) (g : Nat) : List Quad :=
   (memTriples cur p).map (fun tc => mkQuad tc.1 g)
 
